@@ -459,6 +459,8 @@ def _directed() -> Dict[str, Dict[str, Any]]:
     add('link-targets-odd', {'pkg/__init__.py': '', 'pkg/a.py': 'def f():\n    """See L{' + long_target + '\'s} and L{' + long_target + ' } and L{' + 'a.' * 40 + '!} and L{text <' + long_target + '$>}.\n\n'
                                                                  '    U{' + 'x' * 60 + ' <' + 'http://e.x/' + 'a/' * 40 + ' >} L{' + 'a_' * 50 + '-} C{' + 'w ' * 200 + '} L{' + '.' * 80 + '} L{' + long_target + '..}\n    """\n'
                                          'def g():\n    """`' + long_target + '\'s` and :py:obj:`' + long_target + '\'s` and `' + 'a.' * 60 + '!`_\n    """\n', 'pkg/good.py': GOOD})
+    add('reexport-own-package', {'pkg/__init__.py': '', 'pkg/a/__init__.py': 'x = 1\nclass InA: pass\n', 'pkg/a/b.py': 'from pkg import a\nfrom pkg.a import InA\nimport pkg\n__all__ = ["a", "InA", "pkg"]\n',
+                                  'pkg/a/c.py': 'from .. import a as renamed\nfrom . import c\n__all__ = ["renamed", "c"]\n', 'pkg/good.py': GOOD})
     add('same-path-twice', {'pkg/__init__.py': '', 'pkg/good.py': GOOD}, roots=['pkg', 'pkg'])
     add('several-roots', {'pkg/__init__.py': '', 'pkg/good.py': GOOD, 'other/__init__.py': 'from pkg.good import Good\n', 'single.py': 'import pkg\nclass S(pkg.good.Good): pass\n'}, roots=['pkg', 'other', 'single.py'])
     add('roots-same-name', {'a/pkg/__init__.py': 'x = 1\n', 'b/pkg/__init__.py': 'y = 2\n', 'b/pkg/good.py': GOOD}, roots=['a/pkg', 'b/pkg'])
